@@ -178,22 +178,45 @@ theorem rt (cfg : Cfg) (ver : Ver) (e : Endian) : (t : Ty) → (v : Val) → wfV
       rw [seek1_sentinel cfg h61 e _ hC _ hal rest]
       simp only [Res.bind]
       rw [emit1_align cfg h61 e _ pos]
-  | .union disc bs, .struct fs, h, hs => by
+  | .union app disc bs, .struct fs, h, hs => by
     intro pos rest
-    simp only [wfVal] at h
-    split at h
-    · rename_i d id v
-      simp only [Bool.and_eq_true, beq_iff_eq] at h
-      obtain ⟨⟨⟨⟨hp, hdk⟩, hsome⟩, hsel⟩, hb⟩ := h
-      simp only [maxSize] at hs
-      obtain ⟨i, hi⟩ := Option.isSome_iff_exists.mp hsome
-      rw [hi] at hsel
-      simp only [de, ser, List.append_assoc]
-      rw [dPrim_wPrim ver e disc d pos _ hp]
-      simp only [Res.bind, hdk, Bool.not_true, Bool.false_eq_true, if_false, hsel]
-      exact rtB cfg ver e d bs id v hb (by omega) i hi _ rest
-    · simp at h
-  | .union _ _, .num _, h, _ | .union _ _, .str _, h, _ | .union _ _, .list _, h, _ | .union _ _, .absent, h, _ => by simp [wfVal] at h
+    have hwf0 : wfVal cfg ver (.union false disc bs) (.struct fs) = true := by simpa only [wfVal] using h
+    have hsz0 : maxSize (.union false disc bs) (.struct fs) = maxSize (.union app disc bs) (.struct fs) := by
+      simp only [maxSize]
+    -- the final form
+    have hU : ∀ p r, dUnion ver e disc bs (fun d i s1 => deAt cfg ver e d bs i s1)
+        ⟨(wUnion ver e disc (serB cfg ver e bs) fs p).1 ++ r, p⟩ =
+        .ok (.struct fs) ⟨r, (wUnion ver e disc (serB cfg ver e bs) fs p).2⟩ := by
+      intro p r
+      simp only [wfVal] at h
+      split at h
+      · rename_i d id v
+        simp only [Bool.and_eq_true, beq_iff_eq] at h
+        obtain ⟨⟨⟨⟨hp, hdk⟩, hsome⟩, hsel⟩, hb⟩ := h
+        simp only [maxSize] at hs
+        obtain ⟨i, hi⟩ := Option.isSome_iff_exists.mp hsome
+        rw [hi] at hsel
+        simp only [dUnion, wUnion, List.append_assoc]
+        rw [dPrim_wPrim ver e disc d p _ hp]
+        simp only [Res.bind, hdk, Bool.not_true, Bool.false_eq_true, if_false, hsel]
+        exact rtB cfg ver e d bs id v hb (by omega) i hi _ r
+      · rename_i d
+        simp only [Bool.and_eq_true, Option.isNone_iff_eq_none] at h
+        obtain ⟨⟨hp, hdk⟩, hsel⟩ := h
+        simp only [dUnion, wUnion]
+        rw [dPrim_wPrim ver e disc d p _ hp]
+        simp only [Res.bind, hdk, Bool.not_true, Bool.false_eq_true, if_false, hsel]
+      · simp at h
+    have hfacts : ∀ p, Facts (wUnion ver e disc (serB cfg ver e bs) fs p) p (maxSize (.union app disc bs) (.struct fs)) true := by
+      intro p
+      have := serFacts cfg ver e (.union false disc bs) (.struct fs) hwf0 p
+      simpa only [ser, Bool.false_and, Bool.false_eq_true, if_false, hsz0, sizePos] using this
+    simp only [de, ser]
+    split
+    · have hf := hfacts (wPrim ver e .u32 0 pos).2
+      exact dDelimited_wDh ver e _ _ (Val.struct fs) pos rest (by have := hf.1; omega) hf.2.2 (hU _ rest)
+    · exact hU pos rest
+  | .union _ _ _, .num _, h, _ | .union _ _ _, .str _, h, _ | .union _ _ _, .list _, h, _ | .union _ _ _, .absent, h, _ => by simp [wfVal] at h
   | .prim _, .str _, h, _ | .prim _, .list _, h, _ | .prim _, .struct _, h, _ | .prim _, .absent, h, _ => by simp [wfVal] at h
   | .str, .num _, h, _ | .str, .list _, h, _ | .str, .struct _, h, _ | .str, .absent, h, _ => by simp [wfVal] at h
   | .enum _ _ _, .str _, h, _ | .enum _ _ _, .list _, h, _ | .enum _ _ _, .struct _, h, _ | .enum _ _ _, .absent, h, _ => by simp [wfVal] at h
